@@ -168,6 +168,12 @@ void ExecImpl::check_reports(Obs& o, std::vector<XRep>& want, bool multiset, con
   for (auto& r : o.reports) {
     std::string m = r.msg; for (auto& c : m) if (c == '\n') c = '|';
     size_t at = m.find('@'); if (at != std::string::npos && m.compare(0, 10, "Unexpected") == 0) m.resize(at);
+    // hex dumps of pointer-holding arguments differ from process to process: not part of the event-log hash
+    for (size_t ob = m.find("-byte object={"); ob != std::string::npos; ob = m.find("-byte object={", ob + 1)) {
+      size_t cl = m.find('}', ob);
+      if (cl == std::string::npos) break;
+      m.replace(ob, cl - ob + 1, "-byte object");
+    }
     note(std::string("report ") + (r.fatal ? "F " : "N ") + m);
   }
   std::vector<PRep> got;
